@@ -5,6 +5,7 @@ use crate::gen;
 use crate::oracle::{classify, is_window, Out};
 use crate::refenc::{self, ADch, ADtlsBody, ADtlsHs, ADtlsMsg, ADtlsRecordHdr, W};
 use crate::rng::Rng;
+use crate::visit::veq;
 use serde_json::json;
 use tls_parser::nom::error::ErrorKind;
 use tls_parser::*;
@@ -111,7 +112,7 @@ fn hs_case(ctx: &mut Ctx, m: &ADtlsHs, x: &[u8], label: &str) {
                     },
                     _ => true,
                 };
-                (out, Some(*g == exp), g.is_fragment(), frag_addr, format!("{:.300?}", g))
+                (out, Some(veq(g, &exp)), g.is_fragment(), frag_addr, format!("{:.300?}", g))
             }
             Err(_) => (out, None, false, true, String::new()),
         }
@@ -307,7 +308,7 @@ pub fn run(ctx: &mut Ctx) {
             let r = parse_dtls_plaintext_record(&rec);
             let out = classify(&r);
             match &r {
-                Ok((_, p)) => (out, Some(*p == exp), format!("{:.300?}", p)),
+                Ok((_, p)) => (out, Some(veq(p, &exp)), format!("{:.300?}", p)),
                 Err(_) => (out, None, String::new()),
             }
         });
@@ -327,7 +328,7 @@ pub fn run(ctx: &mut Ctx) {
         let hdr = DTLSRecordHeader { content_type: TlsRecordType(ct), version: TlsVersion(h.ver), epoch: h.epoch, sequence_number: h.seq, length: payload.len() as u16 };
         let r2 = parse_dtls_record_with_header(&payload, &hdr);
         ctx.eval();
-        if !matches!(&r2, Ok((rem, m)) if rem.is_empty() && *m == exp.messages) {
+        if !matches!(&r2, Ok((rem, m)) if rem.is_empty() && veq(m, &exp.messages)) {
             ctx.violation(format!("c10:record_with_header:ct=0x{:02x}", ct), json!({"outcome": classify(&r2).show(), "payload_hex": hex_short(&payload)}));
         }
         // prefixes
@@ -503,7 +504,7 @@ pub fn run(ctx: &mut Ctx) {
         let r2 = parse_dtls_plaintext_records(&dg);
         ctx.eval();
         ctx.shape(&("datagram", k, lc(dg.len()), r2.is_ok()));
-        if matches!(&r2, Ok((rem, v)) if rem.is_empty() && *v == exp) {
+        if matches!(&r2, Ok((rem, v)) if rem.is_empty() && veq(v, &exp)) {
             ctx.count("datagrams.ok");
         } else {
             ctx.violation("c10:datagram:wrong-records".into(), json!({"records": k, "outcome": classify(&r2).show(), "input_hex": hex_short(&dg)}));
